@@ -86,8 +86,8 @@ Fixpoint update_containing (d : list cont) (pos : Z) (f : cont -> cont) : list c
   | c :: r => if contains pos c then f c :: r else c :: update_containing r pos f
   end.
 
-Definition new_cont (d : list cont) (dcs : Z) : cont :=
-  {| c_pos := match d with [] => 0 | _ => c_end (last d {| c_pos := 0; c_data := [] |}) end;
+Definition new_cont (d : list cont) (tp dcs : Z) : cont :=
+  {| c_pos := match d with [] => tp | _ => c_end (last d {| c_pos := 0; c_data := [] |}) end;
      c_data := repeat 0 (Z.to_nat dcs) |}.
 
 Fixpoint write_loop (fuel : nat) (dcs : Z) (d : list cont) (tp : Z) (bs : list Z) : option (list cont * Z) :=
@@ -102,7 +102,7 @@ Fixpoint write_loop (fuel : nat) (dcs : Z) (d : list cont) (tp : Z) (bs : list Z
                      (tp + p) (skipn (Z.to_nat p) bs)
       | None =>
           (* append a default-sized container; it is used by the next iteration if it contains tp *)
-          let c := new_cont d dcs in
+          let c := new_cont d tp dcs in
           let d' := d ++ [c] in
           let off := tp - c_pos c in
           let p := Z.min (Z.of_nat (length bs)) (c_size c - off) in
